@@ -398,3 +398,7 @@ def run(ctx):
     for rp, q in (('core/_files.py', 'PseudoNetCDFFile.stack'), ('core/_functions.py', 'stack_files')):
         check_forelse(ctx, rp, q)
     ctx.floor('for/else loops in the multi-file helpers', n, 2)
+    # ---- R-PASSMASK: variables the string forms pass through keep their mask
+    from .. import lints as _lp
+    ctx.rule('R-PASSMASK', 'variables that an operation passes through unchanged keep their mask: the converter copy does not fill an in-memory masked target')
+    _lp.converter_pass_through(ctx, 'R-PASSMASK', [('core/_functions.py', 'stack_files')])
